@@ -7,6 +7,35 @@ emits `def Okane.Params.<name> : <lean_type> := <value>` into lean/Okane/Generat
 
 def register(probe):
     # --- C19 / printer constants -------------------------------------------------------------
+    D = "core/src/syntax/display.rs"
+    probe("amountColumn", D, r"get_column\(\s*(\d+)\s*,\s*account_width \+ alignment\s*,\s*\d+\s*\)",
+          doc="column (after the indent) at which the numeric part of a posting amount ends: `get_column(48, account_width + alignment, 2)`")
+    probe("amountPadding", D, r"get_column\(\s*\d+\s*,\s*account_width \+ alignment\s*,\s*(\d+)\s*\)",
+          doc="minimal blank run between account and amount")
+    probe("balanceColumn", D, r"get_column\(\s*(\d+) \+ trailing\s*,\s*account_width\s*,\s*\d+\s*\)",
+          doc="balance-only posting: `get_column(50 + trailing, account_width, 3)` is the width into which \" =\" is right-aligned")
+    probe("balancePadding", D, r"get_column\(\s*\d+ \+ trailing\s*,\s*account_width\s*,\s*(\d+)\s*\)",
+          doc="minimal width of the right-aligned \" =\" of a balance-only posting")
+    probe("postingIndent", D, r'write!\(\s*f,\s*"( *)\{\}\{\}",\s*post_clear', conv=len,
+          doc="blanks before the clear mark / account of a posting line")
+    probe("txnMetaIndent", D, r'for m in &xact\.metadata \{\s*writeln!\(f, "( *); \{\}", m\)', conv=len,
+          doc="blanks before `; ` on a transaction metadata line")
+    probe("postMetaIndent", D, r'for m in &post\.metadata \{\s*writeln!\(f, "( *); \{\}", m\)', conv=len,
+          doc="blanks before `; ` on a posting metadata line")
+    probe("detailCommentPrefix", D, r'AccountDetail::Comment\(v\) => LineWrapStr::wrap\("([^"]*)", v\)', conv=str, lean_type="String",
+          doc="prefix of an account sub-directive comment line")
+    probe("detailNotePrefix", D, r'AccountDetail::Note\(v\) => LineWrapStr::wrap\("([^"]*)", v\)', conv=str, lean_type="String",
+          doc="prefix of an account sub-directive note line")
+    probe("detailAliasPrefix", D, r'AccountDetail::Alias\(v\) => writeln!\(f, "([^"{]*)\{\}", v\)', conv=str, lean_type="String",
+          doc="prefix of an account sub-directive alias line")
+    probe("cdetailCommentPrefix", D, r'CommodityDetail::Comment\(v\) => LineWrapStr::wrap\("([^"]*)", v\)', conv=str, lean_type="String",
+          doc="prefix of a commodity sub-directive comment line")
+    probe("cdetailNotePrefix", D, r'CommodityDetail::Note\(v\) => LineWrapStr::wrap\("([^"]*)", v\)', conv=str, lean_type="String",
+          doc="prefix of a commodity sub-directive note line")
+    probe("cdetailAliasPrefix", D, r'CommodityDetail::Alias\(v\) => writeln!\(f, "([^"{]*)\{\}", v\)', conv=str, lean_type="String",
+          doc="prefix of a commodity sub-directive alias line")
+    probe("cdetailFormatPrefix", D, r'CommodityDetail::Format\(v\) => writeln!\(f, "([^"{]*)\{\}", self', conv=str, lean_type="String",
+          doc="prefix of a commodity sub-directive format line")
     # --- C11 / loader ------------------------------------------------------------------------
     # --- others ------------------------------------------------------------------------------
     pass
